@@ -150,7 +150,35 @@ def gen(rng, tier):
             r = rand_bits(rng, (64 * nd) // n)
             for x in (r ** n - 1, r ** n):
                 emit(reqs, rng, x, n, signed_too=False)
+    reqs += inherent_methods(rng, thorough)
     return reqs
+
+
+def inherent_methods(rng, thorough):
+    """api-coverage block: the INHERENT `BigUint::{sqrt,cbrt,nth_root}` / `BigInt::{sqrt,cbrt,nth_root}` (ops `*_m`) on
+    every regime of the trait stream: short-cuts (0, 1, n = 0/1, bits <= n), the u64 path, the finite-f64 guess,
+    the scaled guess above 2^1024, perfect powers and their neighbours, negative BigInt with even/odd degree."""
+    out = []
+    xs = [0, 1, 2, 3, 8, 9, 26, 27, 28, (1 << 64) - 1, 1 << 64, (1 << 64) + 1]
+    for nb in [70, 127, 128, 129, 640, 1023, 1024, 1025, 1100, 2049] + ([4000, 7000] if thorough else []):
+        xs += [rand_bits(rng, nb), (1 << nb) - 1, 1 << (nb - 1)]
+    for n in (2, 3, 5, 7):
+        for tb in (60, 130, 700, 1100) + ((3000,) if thorough else ()):
+            r = rand_bits(rng, max(1, tb // n))
+            p = r ** n
+            xs += [p - 1, p, p + 1]
+    edge = (1 << 1024) - (1 << 970)
+    xs += [edge - 1, edge, edge + 1]
+    for x in xs:
+        out.append("C11 u.sqrt_m %s" % wu(x)); out.append("C11 u.cbrt_m %s" % wu(x))
+        out.append("C11 i.sqrt_m %s" % wi(x)); out.append("C11 i.cbrt_m %s" % wi(x))
+        if x:
+            out.append("C11 i.sqrt_m %s" % wi(-x)); out.append("C11 i.cbrt_m %s" % wi(-x))
+        b = x.bit_length()
+        for n in [0, 1, 2, 3, 4, 5, 64] + [d for d in (b - 1, b, b + 1) if 1 <= d <= U32MAX] + [U32MAX]:
+            out.append("C11 u.nth_root_m %s %d" % (wu(x), n))
+            out.append("C11 i.nth_root_m %s %d" % (wi(x if rng.randrange(2) else -x), n))
+    return out
 
 
 def _parse(t):
